@@ -2,11 +2,14 @@
    Statements about `generate`, the model of GenerateRandomExpr as a function of the raw random draws (every seed
    is some stream of draws; tied to the Go function by a scripted rand.Source on every run). Proofs: GenProofs.v.
    Both evaluation clauses are theorems: three-valued evaluation (TryEval) for every option set, ordinary evaluation
-   (Eval, under every optimisation configuration) when no DNE variable can be used. PARTIAL: (a) the theorems are
-   about the generated TREE; that the printed text compiles back to that tree is checked on the real code on every
-   run; (b) at level 0 the generated text is a bare leaf that prefix Compile rejects - a recorded finding
-   (known_findings.json). *)
-Require Import Base Opcode Tables Ops Tree Opt Flat Run TryFacts Gen GenProofs GenEval OptTotal EvalDefs EvalTop TryCorrect.
+   (Eval, under every optimisation configuration) when no DNE variable can be used; and the TEXT the generator
+   returns (model `gtext`, compared with Go's string on every run) is read back by lexer, parser.check and prefix
+   parser as the generated tree, in every configuration that registers the given variables, from level 1 on. Limits of
+   the statement: (a) "compiles" is proved up to the capacity check (an expression of more than 32767 nodes, reachable
+   only at high levels, is rejected by design - C09); (b) at level 0 the generated text is a bare leaf that prefix
+   Compile rejects - a recorded finding (known_findings.json). *)
+Require Import Base Opcode Tables Ops Tree Opt Flat Run TryFacts Parser Gen GenText GenProofs GenEval GenTextProofs GenShape
+  OptTotal EvalDefs EvalTop TryCorrect.
 Open Scope Z_scope.
 
 (* for every level, every stream of draws, both result types, every option combination and variable lists whose
@@ -57,6 +60,36 @@ Proof.
   unfold r. rewrite (generate_sem_plain c Hc Hn isb level s). reflexivity.
 Qed.
 
+(* ---------- the text ---------- *)
+
+(* in any parser configuration `pc` that registers the given variables (each name an identifier the lexer accepts,
+   not a constant), from level 1 on: the returned text goes through lexer, parser.check and the prefix parser and
+   yields the generated tree (with that configuration's variable keys) *)
+Theorem C20_text_parses : forall c pc, registers c pc -> forall isb level s, (1 <= level)%nat ->
+  let t := fst (generate c isb level s) in parse_source pc false (gtext t) = Some (rekey pc t).
+Proof. exact generate_text_parses. Qed.
+
+(* and that parsed tree evaluates to the reported result: Eval under every optimisation configuration when no DNE
+   variable can be used, TryEval in general *)
+Theorem C20_text_eval : forall c pc, wf_cfg c -> g_try c && nonempty (g_dnes c) = false -> forall cfg isb level s,
+  let r := generate c isb level s in
+  snd (eval (gfetch c) no_custom (compile (optimize no_custom cfg (rekey pc (fst r))))) = MVal (snd r).
+Proof.
+  intros c pc Hc Hn cfg isb level s r. rewrite run_compile_correct. unfold sem_obs. cbn [snd].
+  destruct (generate_rok c Hc Hn isb level s) as [H _]. fold r in H.
+  rewrite <- (rok_rekey (gfetch c) no_custom pc (fun n k k' => eq_refl)) in H.
+  pose proof (all_configurations_return (gfetch c) no_custom cfg _ _ H) as A. unfold OptValue.val in A. rewrite A. reflexivity.
+Qed.
+Theorem C20_text_tryeval : forall c pc, wf_cfg c -> forall isb level s,
+  let r := generate c isb level s in
+  snd (tryeval (gfetch c) no_custom (gcached c) (compile (rekey pc (fst r)))) = MVal (snd r).
+Proof.
+  intros c pc Hc isb level s r. rewrite tryrun_compile_correct. unfold sem_obs. cbn [snd].
+  destruct (generate_kleene c Hc isb level s) as (Hk & Hs & _). fold r in Hk, Hs.
+  rewrite (trysem_is_kleene _ _ _ _ (subs_ok_rekey (gfetch c) no_custom pc (fun n k k' => eq_refl) (gcached c) (fun n k k' => eq_refl) _ Hs)).
+  rewrite (kleene_rekey (gfetch c) no_custom pc (fun n k k' => eq_refl) (gcached c) (fun n k k' => eq_refl)). rewrite Hk. reflexivity.
+Qed.
+
 (* the generator's own operator evaluation is the Kleene combination whenever that is defined *)
 Theorem C20_exec_is_comb : forall op vals r,
   In op [ss "and"; ss "or"; ss "eq"; ss "not"; ss "+"; ss "-"; ss "*"; ss "/"; ss "%"] ->
@@ -81,6 +114,18 @@ Proof. split; [exact C20_ex_wf|reflexivity]. Qed.
 Example C20_ex1 : exists b, snd (generate c1 true 3 [5; 3; 2; 7; 1; 4; 9; 1; 60; 2; 0; 8; 1; 30; 4; 2; 40; 6; 3; 1; 1; 0; 2; 7]) = VBool b.
 Proof. vm_compute. eexists. reflexivity. Qed.
 
+(* non-vacuity of `registers`: the three variables of c0 registered with keys 1..3 *)
+Definition pc0 : pconf := {| p_consts := []; p_vars := [(ss "n", 1); (ss "b", 2); (ss "d", 3)]; p_ops := []; p_undefined := false |}.
+Example C20_ex_registers : registers c0 pc0.
+Proof.
+  intros n Hn. cbn in Hn. destruct Hn as [<-|[<-|[<-|[]]]]; (split; [reflexivity|split; [reflexivity|split; [eexists; reflexivity|]]]);
+    (split; [eexists _, _; split; [reflexivity|]; repeat split; try reflexivity; try discriminate; repeat constructor|vm_compute; reflexivity]).
+Qed.
+Example C20_ex_text : gtext (fst (generate c0 true 2 [5; 3; 2; 7; 1; 4; 9; 1; 60; 2; 0; 8; 1; 30; 4; 2; 40; 6; 3; 1; 1; 0; 2; 7])) <> [].
+Proof. vm_compute. discriminate. Qed.
+
 Print Assumptions C20_reported_is_kleene.
+Print Assumptions C20_text_parses.
+Print Assumptions C20_text_eval.
 Print Assumptions C20_reported_is_eval.
 Print Assumptions C20_reported_is_tryeval.
